@@ -5,7 +5,7 @@
 From Coq Require Import List NArith.
 From Coq.Strings Require Import Byte.
 From Model Require Import Bytes Transport.
-From Proofs Require Import TransportFacts GenTie.
+From Proofs Require Import TransportFacts GenTie DrainDelivery.
 Import ListNotations.
 Open Scope N_scope.
 
@@ -26,3 +26,28 @@ Print Assumptions C18_everything_is_drained.
 (* (regenerated) the buffer size of the running code is the model's *)
 Theorem C18_buffer_size : Gen.GenConst.impl_buffer_size = BUFFER_SIZE.
 Proof. destruct impl_constants as (_ & _ & B & _). exact B. Qed.
+
+(* ---------- joined with C02 and C01 (DrainDelivery.v) ---------- *)
+(* what the read side hands to WebSocket.feed before the loop waits in the selector again is, for the client, the same as
+   everything that was available fed in one piece (C02 on the chunks the transport model produces) -- and then it would block *)
+Theorem C18_drained_chunks_feed_like_everything_available : forall cf app t c, well_formed t -> Proofs.FrameParserFacts.fp_ok (Model.Conn.k_ps c) ->
+  Proofs.ConnFacts.feed_chunks cf app c (fst (drain_all t)) = Model.Conn.feedf cf app c (available t) /\ wait (snd (drain_all t)) = None.
+Proof. exact Proofs.DrainDelivery.drained_chunks_feed_like_everything_available. Qed.
+Print Assumptions C18_drained_chunks_feed_like_everything_available.
+
+(* "every message is delivered, and every automatic reply written, in the same loop cycle in which its last byte becomes
+   available": when what is available is a conforming frame sequence -- however it is spread over TCP segments or TLS
+   records, on plain TCP, TLS, or TLS with read-ahead -- all its messages have been yielded and all the Pongs it calls for
+   written when the loop next waits in the selector *)
+Theorem C18_available_messages_delivered_before_blocking : forall cf app,
+  Proofs.DeliveryFacts.benign app -> Model.Conn.zpos (Model.Conn.c_ping_timeout cf) = None ->
+  forall t c open fs lfs ms open', well_formed t ->
+  Proofs.DeliveryFacts.idle c open -> Proofs.DeliveryFacts.data_head open -> Forall Proofs.DeliveryFacts.plain fs ->
+  Proofs.DeliveryFacts.forms_ok fs lfs ->
+  Proofs.DeliveryFacts.ref_messages open fs = Some (ms, open') -> available t = Proofs.DeliveryFacts.encode_all fs lfs ->
+  exists c', Proofs.ConnFacts.feed_chunks cf app c (fst (drain_all t)) = (c', Model.Conn.SOk) /\ wait (snd (drain_all t)) = None /\
+             Proofs.DeliveryFacts.msg_events (Model.Conn.k_tr c') =
+               rev (map Proofs.DeliveryFacts.ev_of ms) ++ Proofs.DeliveryFacts.msg_events (Model.Conn.k_tr c) /\
+             Proofs.DeliveryFacts.wfacts cf c c' ms.
+Proof. exact Proofs.DrainDelivery.available_messages_delivered_before_blocking. Qed.
+Print Assumptions C18_available_messages_delivered_before_blocking.
